@@ -145,31 +145,28 @@ theorem OO_permutePMX (vx vy : List Nat) : OO (permutePMX vx vy) := by
     | none => exact OO.fail _
     | some c1 => exact OO.pure _
 
-theorem OO_cycleLoop (p0 p1 : List Nat) : ∀ (is : List Nat) (ch : Kids), OO (cycleLoop p0 p1 is ch) := by
+theorem OO_cycleLoop (p0 p1 : List Nat) : ∀ (is : List Nat) (asg : List (Option Bool)), OO (cycleLoop p0 p1 is asg) := by
   intro is
   induction is with
-  | nil => intro ch; simp only [cycleLoop]; exact OO.pure _
+  | nil => intro asg; simp only [cycleLoop]; exact OO.pure _
   | cons i is ih =>
-    intro ch
+    intro asg
     simp only [cycleLoop]
     split
     · exact ih _
     · apply OO.bind (OO_nextIdx _ _)
       intro c
-      cases cyclePick p0 p1 (2 * p0.length + 2) c 0 i ch with
+      cases orbit p0 p1 i with
       | none => exact OO.fail _
-      | some ch' => exact ih _
+      | some o => exact ih _
 
 theorem OO_permuteCycle (vx vy : List Nat) : OO (permuteCycle vx vy) := by
   unfold permuteCycle
   apply OO.bind (OO_cycleLoop _ _ _ _)
-  intro ch
-  cases allSomeNat ch.1 with
+  intro asg
+  cases allSomeBool asg with
   | none => exact OO.fail _
-  | some c0 =>
-    cases allSomeNat ch.2 with
-    | none => exact OO.fail _
-    | some c1 => exact OO.pure _
+  | some sides => exact OO.pure _
 
 theorem OO_place (loc : Option Nat) (x y : DNA) (c0 c1 : List Nat) : OO (place loc x y c0 c1) := by
   unfold place
@@ -189,20 +186,16 @@ theorem OO_place (loc : Option Nat) (x y : DNA) (c0 c1 : List Nat) : OO (place l
         · exact OO.fail _
 
 theorem OO_permProposals (permute : List Nat → List Nat → M (List Nat × List Nat))
-    (hp : ∀ vx vy, OO (permute vx vy)) (pts : List PermPoint) (x y : DNA) :
-    OO (permProposals permute pts x y) := by
+    (hp : ∀ vx vy, OO (permute vx vy)) (k : Nat) (pts : List PermPoint) (x y : DNA) :
+    OO (permProposals permute k pts x y) := by
   unfold permProposals
   apply OO.bind
-  · unfold pickPoint
+  · unfold pickPoints
     split
     · exact OO.pure _
-    · apply OO.bind (OO_nextSample _ _)
-      intro is
-      rcases is with _ | ⟨t, _ | ⟨t2, r⟩⟩
-      · exact OO.fail _
-      · exact OO.pure _
-      · exact OO.fail _
-  · intro t
+    · exact OO.bind (OO_nextSample _ _) (fun _ => OO.pure _)
+  · intro ts
+    refine OO.bind (OO_forEachM _ (fun t => ?_) _) (fun _ => OO.pure _)
     cases pts[t]? with
     | none => exact OO.fail _
     | some lk =>
@@ -211,24 +204,26 @@ theorem OO_permProposals (permute : List Nat → List Nat → M (List Nat × Lis
       exact OO.bind (hp vx vy) (fun cs => OO_place _ _ _ _ _)
 
 /-- a permutation recombinator returns its two parents (no permutation point) or children that passed
-`from_dict` and are new objects — whatever its `permutate` method proposes. -/
+`from_dict` and are new objects — whatever its `permutate` method proposes and however many points
+the `where.Any(k)` filter selects. -/
 theorem recPerm_spec (permute : List Nat → List Nat → M (List Nat × List Nat))
-    (hp : ∀ vx vy, OO (permute vx vy)) (g : GSpec) (pop : Pop) (st : St) (out : Pop) (st' : St)
-    (h : recPerm permute g pop st = .ok (out, st')) :
-    (out = pop ∧ st' = st) ∨
+    (hp : ∀ vx vy, OO (permute vx vy)) (k : Nat) (g : GSpec) (pop : Pop) (st : St) (out : Pop) (st' : St)
+    (h : recPerm permute k g pop st = .ok (out, st')) :
+    (out = pop ∧ st.nextUid = st'.nextUid) ∨
     (st.nextUid ≤ st'.nextUid ∧
      ∀ y ∈ out, valid g y.dna = true ∧ aligned y.dna = true ∧ st.nextUid ≤ y.uid ∧ y.uid < st'.nextUid) := by
   unfold recPerm at h
   split at h
   · split at h
     · exact ((fail_ok _ _ _).mp h).elim
-    · split at h
-      · rw [pure_ok] at h
-        exact Or.inl ⟨h.1.symm, h.2.symm⟩
-      · rw [bind_ok] at h
-        obtain ⟨raw, s1, h1, h2⟩ := h
-        have hu := OO_permProposals permute hp _ _ _ st raw s1 h1
-        obtain ⟨hle, hall⟩ := finishChildren_spec g raw s1 out st' h2
+    · rw [bind_ok] at h
+      obtain ⟨raw, s1, h1, h2⟩ := h
+      have hu := OO_permProposals permute hp _ _ _ _ st raw s1 h1
+      split at h2
+      · rw [pure_ok] at h2
+        obtain ⟨rfl, rfl⟩ := h2
+        exact Or.inl ⟨rfl, hu.symm⟩
+      · obtain ⟨hle, hall⟩ := finishChildren_spec g raw s1 out st' h2
         refine Or.inr ⟨by omega, ?_⟩
         intro y hy
         obtain ⟨hv, ha, h1', h2'⟩ := hall y hy
@@ -237,9 +232,9 @@ theorem recPerm_spec (permute : List Nat → List Nat → M (List Nat × List Na
 
 theorem recOrder_spec (g : GSpec) (pop : Pop) (st : St) (out : Pop) (st' : St)
     (h : recOrder g pop st = .ok (out, st')) :
-    (out = pop ∧ st' = st) ∨
+    (out = pop ∧ st.nextUid = st'.nextUid) ∨
     (st.nextUid ≤ st'.nextUid ∧
      ∀ y ∈ out, valid g y.dna = true ∧ aligned y.dna = true ∧ st.nextUid ≤ y.uid ∧ y.uid < st'.nextUid) :=
-  recPerm_spec permuteOrder OO_permuteOrder g pop st out st' h
+  recPerm_spec permuteOrder OO_permuteOrder 1 g pop st out st' h
 
 end Pg.C14
